@@ -426,7 +426,7 @@ impl Problem for Composite {
             "warp": format!("{:?}", self.warp),
             "mixed": self.mix.is_some(),
             "cond": self.mix.as_ref().map(|m| m.cond),
-            "mix_matrix": self.mix.as_ref().filter(|m| m.p.len() <= 4).map(|m| m.p.clone()),
+            "mix_matrix": self.mix.as_ref().filter(|m| m.p.len() <= 8).map(|m| m.p.clone()),
             "x0": self.x0,
         })
     }
